@@ -4,9 +4,9 @@ L9 Files — `rpyc/utils/classic.py`: `upload`, `upload_file`, `upload_dir`, `do
 `download_dir`.
 
 `download*` is `upload*` with the roles of the two sides swapped (the local calls `open`, `os.listdir`,
-`os.path.isdir|isfile|join`, `os.makedirs` become remote calls and vice versa).  The two are transcribed
-separately (`upload…` / `download…`) and proved equal (`download_eq_upload`); the correspondence runs the
-two real code paths separately.
+`os.path.isdir|isfile|join`, `os.makedirs` become remote calls and vice versa).  The model has no local/remote
+state: `download…` is a second copy of the same recursion (`download_eq_upload`); the two real code paths are
+distinguished by the correspondence only.
 
 Names are lists of code points (`Name`): a file name that is not valid UTF-8 reaches Python as a `str` with
 lone surrogates (`os.fsdecode`, surrogateescape) and travels through brine as such.
@@ -48,6 +48,10 @@ inductive FErr where
   | isADirectoryError
   /-- `os.makedirs(path)` on a regular file -/
   | fileExistsError
+  /-- `open(path, "wb")` / `os.makedirs(path)` when a component of the path is a regular file -/
+  | notADirectoryError
+  /-- `open(path, "wb")` when the directory the file is to be created in does not exist -/
+  | fileNotFoundError
   /-- the destination is a fifo / device / dangling link: what the real calls do there is not modelled -/
   | notModelled
   deriving DecidableEq, Repr
@@ -56,6 +60,8 @@ def FErr.name : FErr → String
   | .valueError => "ValueError"
   | .isADirectoryError => "IsADirectoryError"
   | .fileExistsError => "FileExistsError"
+  | .notADirectoryError => "NotADirectoryError"
+  | .fileNotFoundError => "FileNotFoundError"
   | .notModelled => "NOT-MODELLED"
 
 mutual
@@ -203,7 +209,29 @@ def distinctEntries : Entries → Bool
   | .cons n t rest => !rest.names.contains n && distinctNames t && distinctEntries rest
 end
 
-/-! ### `download`, transcribed on its own -/
+/-- what the destination path's parent is -/
+inductive Parent where
+  | dir
+  | file
+  | missing
+  deriving DecidableEq, Repr
+
+/-- `upload` to a destination path that does not exist, below a parent that is a directory, a regular file, or is
+missing itself: under a regular file both `open(…, "wb")` and `os.makedirs` raise `NotADirectoryError`; with the parent
+missing `open` raises `FileNotFoundError` while `os.makedirs` creates the missing directories; a source that is neither
+file nor directory touches nothing -/
+def uploadUnder (chunk : Nat) (f : Filter) (ignoreInvalid : Bool) (p : Parent) (t : Tree) : Except FErr (Option Tree) :=
+  match p, t with
+  | .dir, t => upload chunk f ignoreInvalid t
+  | _, .other => upload chunk f ignoreInvalid .other
+  | .file, _ => .error .notADirectoryError
+  | .missing, .file _ => .error .fileNotFoundError
+  | .missing, .dir es => upload chunk f ignoreInvalid (.dir es)
+
+/-! ### `download`: the same recursion written down a second time
+
+The model has no local / remote state, so this is a copy of `upload…` with the names of the download functions; the two
+real code paths are told apart by the correspondence only. -/
 
 /-- `download_file`: `while True: buf = rf.read(chunk_size); if not buf: break; lf.write(buf)` -/
 def downloadLoop (chunk : Nat) : Nat → Bytes → Bytes → Bytes
